@@ -2,6 +2,7 @@
 from ..cacheprop import CacheProp
 from .. import cachegen
 from .c13 import parse_dump
+from .c17 import C17
 
 
 class C15(CacheProp):
@@ -23,6 +24,29 @@ class C15(CacheProp):
             if rng.random() < 0.6:
                 c.ops += ["wait"] if rng.random() < 0.3 else []
                 c.ops += ["clear", "tok", "tok", "tok", "dump", "rem", "metrics", "iter"]
+                if rng.random() < 0.6:
+                    # a second life after Clear: inserts, an overwrite, a delete, drained; then the counters must relate to
+                    # the accounting as on a fresh cache (the conservation laws of C17, applied after the Clear)
+                    sets = [o.split() for o in c.ops if o.startswith("set ")]
+                    if sets:
+                        vmax = max(int(x[3]) for x in sets)
+                        # Clear zeroes the frequency estimates: restore the case's distinct ones, else the eviction order
+                        # among equals is Go's map order
+                        life = []
+                        for o in c.ops:
+                            if not (o.startswith("est ") or o.startswith("estcheck ")):
+                                break
+                            life.append(o)
+                        picked = rng.sample(sets, min(len(sets), rng.randrange(2, 6)))
+                        for x in picked:
+                            vmax += 1
+                            life.append("set %s %s %d %s 0" % (x[1], x[2], vmax, x[4]))
+                        life += ["tok"] * (len(picked) + 2) + ["wait"]
+                        x = picked[0]
+                        life += ["set %s %s %d %s 0" % (x[1], x[2], vmax + 1, x[4]), "tok", "tok",
+                                 "del %s %s" % (picked[-1][1], picked[-1][2]), "tok", "tok", "tok", "wait", "tok",
+                                 "dump", "metrics", "rem", "iter"]
+                        c.ops += life
         return cases
 
     def oracle(self, case, il):
@@ -80,6 +104,21 @@ class C15(CacheProp):
                     fails.append("op %d: after Clear IterValues yields %s" % (st["n"], res))
                 if op[0] == "metrics" and res[:1] != ["nil"] and any(int(x) != 0 for x in res[2:9]):
                     fails.append("op %d: after Clear the metrics are not reset: %s" % (st["n"], res))
+        # "accepts and serves new writes as a fresh one would": the counters that restart at Clear obey the conservation
+        # laws from then on
+        first_clear = None
+        for st in tr.steps:
+            if st["op"][0] == "clear":
+                first_clear = st["n"]
+                break
+        if first_clear is not None and "profile:collide" not in case.tags:
+            for f in C17.oracle(None, case, il):
+                try:
+                    n = int(f.split()[1].rstrip(":"))
+                except (ValueError, IndexError):
+                    continue
+                if n > first_clear:
+                    fails.append(f + " (after the Clear at op %d: not the counters of a fresh cache)" % first_clear)
         return fails
 
     def nontrivial(self, case, il):
